@@ -36,6 +36,7 @@ import (
 
 	"verifharness/evid"
 	"verifharness/gen/abigen"
+	"verifharness/gen/abigen/abilib"
 	"verifharness/ref/abiref"
 )
 
@@ -231,7 +232,94 @@ func judgeIdentity(en *entry) (vs []evid.Violation) {
 	if got, err := en.e.SignatureHash(); err != nil || !bytes.Equal(got, h) {
 		vs = append(vs, evid.V("topic", "%s: SignatureHash = %x (%v), keccak256 is %x", en.sig, []byte(got), err, h))
 	}
+	if len(vs) > 0 {
+		return vs
+	}
+	// F1: the returned slices are the caller's: writing into them must not change later answers
+	scribble(en.e.FunctionSelectorBytes())
+	sel2, _ := en.e.GenerateFunctionSelector()
+	scribble(sel2)
+	scribble(en.e.SignatureHashBytes())
+	h2, _ := en.e.SignatureHash()
+	scribble(h2)
+	if got := en.e.FunctionSelectorBytes(); !bytes.Equal(got, h[:4]) {
+		vs = append(vs, evid.V("result-not-shared", "%s: after the caller wrote into previously returned selector/hash slices, FunctionSelectorBytes = %x, want %x", en.sig, []byte(got), h[:4]))
+	}
+	if got := en.e.SignatureHashBytes(); !bytes.Equal(got, h) {
+		vs = append(vs, evid.V("result-not-shared", "%s: after the caller wrote into previously returned selector/hash slices, SignatureHashBytes = %x, want %x", en.sig, []byte(got), h))
+	}
+	if sig2, err := en.e.Signature(); err != nil || sig2 != en.sig {
+		vs = append(vs, evid.V("result-not-shared", "%s: a second Signature() gives %q (%v)", en.sig, sig2, err))
+	}
 	return vs
+}
+
+func scribble(b []byte) {
+	for i := range b {
+		b[i] ^= 0xFF
+	}
+	_ = append(b, 0xEE, 0xEE)
+}
+
+// scribbleTree writes into everything mutable a decoded value tree hands out.
+func scribbleTree(cv *abi.ComponentValue) {
+	if cv == nil {
+		return
+	}
+	switch x := cv.Value.(type) {
+	case []byte:
+		scribble(x)
+	case *big.Int:
+		if x != nil {
+			x.SetInt64(-7)
+		}
+	case *big.Float:
+		if x != nil {
+			x.SetInt64(-7)
+		}
+	}
+	for _, ch := range cv.Children {
+		scribbleTree(ch)
+	}
+}
+
+// ownedDecode runs one decode call on caller-owned buffers (F2). The call must not write to any
+// of them (bufs and views). The buffers in bufs are those the library copies out of: the
+// returned tree must still match after the caller has overwritten them, and writing into the
+// returned tree must not write through into them. (views are inputs the library may hand back
+// a view of by design - the raw topics of indexed reference types - for which only "not
+// written by the call" is asserted.) The plain mismatch (before any scribbling) is returned to
+// the caller as mismatch.
+func ownedDecode(api string, bufs, views []*abilib.Owned, dec func() (*abi.ComponentValue, error), match func(*abi.ComponentValue) error) (err error, mismatch error, vs []evid.Violation) {
+	var cv *abi.ComponentValue
+	cv, err = dec()
+	for _, o := range append(append([]*abilib.Owned{}, bufs...), views...) {
+		if !o.Unchanged() {
+			vs = append(vs, evid.V("input-not-written", "%s wrote to a caller-owned input buffer (or to the memory around it)", api))
+			return
+		}
+	}
+	if err != nil {
+		return
+	}
+	if mismatch = match(cv); mismatch != nil {
+		return
+	}
+	for _, o := range bufs {
+		o.Scribble()
+	}
+	if e := match(cv); e != nil {
+		vs = append(vs, evid.V("result-independent-of-input-buffer", "%s: the returned value tree changed when the caller overwrote its own input buffer after the call: %v", api, e))
+		return
+	}
+	scribbleTree(cv)
+	for _, o := range bufs {
+		if !o.Unchanged() {
+			vs = append(vs, evid.V("result-owns-its-memory", "%s: writing into the returned value tree wrote through into the caller-owned input buffer", api))
+			return
+		}
+	}
+	return
 }
 
 // judgeCall: call data of a function or error entry.
@@ -246,7 +334,11 @@ func judgeCall(en *entry, other *entry) (vs []evid.Violation) {
 	if err != nil {
 		return append(vs, evid.V("harness", "%v", err))
 	}
-	got, err := en.e.EncodeCallDataJSON(in)
+	inOwned := abilib.NewOwned(in)
+	got, err := en.e.EncodeCallDataJSON(inOwned.Bytes())
+	if !inOwned.Unchanged() {
+		vs = append(vs, evid.V("input-not-written", "%s: EncodeCallDataJSON wrote to the caller's JSON text buffer", en.sig))
+	}
 	if err != nil {
 		vs = append(vs, evid.V("call-encode", "%s: EncodeCallDataJSON(%s) failed: %v", en.sig, clip(string(in)), err))
 	} else if !bytes.Equal(got, want) {
@@ -257,12 +349,16 @@ func judgeCall(en *entry, other *entry) (vs []evid.Violation) {
 	} else if !bytes.Equal(got, want) {
 		vs = append(vs, evid.V("call-encode", "%s: EncodeCallDataValues(%s) = %s, selector ‖ reference encoding is %s", en.sig, clip(string(in)), clip(hex.EncodeToString(got)), clip(hex.EncodeToString(want))))
 	}
-	cv, err := en.e.DecodeCallData(append([]byte{}, want...))
+	own := abilib.NewOwned(want)
+	err, mismatch, extra := ownedDecode("DecodeCallData", []*abilib.Owned{own}, nil,
+		func() (*abi.ComponentValue, error) { return en.e.DecodeCallData(own.Bytes()) },
+		func(cv *abi.ComponentValue) error { return matchValue(en.ty, en.args, cv, "") })
 	if err != nil {
 		vs = append(vs, evid.V("call-decode", "%s: DecodeCallData of its own call data %s failed: %v", en.sig, clip(hex.EncodeToString(want)), err))
-	} else if err := matchValue(en.ty, en.args, cv, ""); err != nil {
-		vs = append(vs, evid.V("call-decode", "%s: DecodeCallData of %s returned other arguments: %v", en.sig, clip(hex.EncodeToString(want)), err))
+	} else if mismatch != nil {
+		vs = append(vs, evid.V("call-decode", "%s: DecodeCallData of %s returned other arguments: %v", en.sig, clip(hex.EncodeToString(want)), mismatch))
 	}
+	vs = append(vs, extra...)
 	// the same arguments under a selector that differs in one bit (first and last byte)
 	for _, i := range []int{0, 3} {
 		foreign := append(flip(sel, i), enc...)
@@ -350,12 +446,10 @@ func judgeEvent(en *entry, other *entry) (vs []evid.Violation) {
 		}
 	}
 	what := fmt.Sprintf("event %s%s anonymous=%v topics=%s data=%s", en.def.Name, en.def.Decl, en.def.Anonymous, topicsString(topics), clip(hex.EncodeToString(data)))
-	cv, err := en.e.DecodeEventData(toTopics(topics), append([]byte{}, data...))
-	if err != nil {
-		vs = append(vs, evid.V("event-decode", "%s: DecodeEventData failed: %v", what, err))
-	} else if len(cv.Children) != len(en.ty.Members) {
-		vs = append(vs, evid.V("event-decode", "%s: %d values returned for %d parameters", what, len(cv.Children), len(en.ty.Members)))
-	} else {
+	matchEvent := func(cv *abi.ComponentValue) (vs []evid.Violation) {
+		if len(cv.Children) != len(en.ty.Members) {
+			return append(vs, evid.V("event-decode", "%s: %d values returned for %d parameters", what, len(cv.Children), len(en.ty.Members)))
+		}
 		ti := 0
 		if !en.def.Anonymous {
 			ti = 1
@@ -382,7 +476,36 @@ func judgeEvent(en *entry, other *entry) (vs []evid.Violation) {
 				ti++
 			}
 		}
+		return vs
 	}
+	// the log is handed over in caller-owned buffers: every topic and the data
+	// (the value surfaced for an indexed reference type may be a view of the caller's topic: by design, not asserted)
+	ownedData := abilib.NewOwned(data)
+	var views []*abilib.Owned
+	ownedTopics := make([]ethtypes.HexBytes0xPrefix, len(topics))
+	for i := range topics {
+		o := abilib.NewOwned(topics[i])
+		views = append(views, o)
+		ownedTopics[i] = o.Bytes()
+	}
+	var plain []evid.Violation
+	err, mismatch, extra := ownedDecode("DecodeEventData", []*abilib.Owned{ownedData}, views,
+		func() (*abi.ComponentValue, error) { return en.e.DecodeEventData(ownedTopics, ownedData.Bytes()) },
+		func(cv *abi.ComponentValue) error {
+			if mv := matchEvent(cv); len(mv) > 0 {
+				if plain == nil {
+					plain = mv
+				}
+				return fmt.Errorf("%s: %s", mv[0].Clause, mv[0].Detail)
+			}
+			return nil
+		})
+	if err != nil {
+		vs = append(vs, evid.V("event-decode", "%s: DecodeEventData failed: %v", what, err))
+	} else if mismatch != nil {
+		vs = append(vs, plain...)
+	}
+	vs = append(vs, extra...)
 	// foreign signature topic
 	if !en.def.Anonymous {
 		var foreign [][]byte
@@ -469,18 +592,31 @@ func judgeErrors(c *Case, en *entry, other *entry) (vs []evid.Violation) {
 	builtinSig := "Error(string)"
 	isBuiltin := bytes.Equal(sel, builtinErrorSelector)
 
-	e, cv, ok := a.ParseError(append([]byte{}, revert...))
+	ownRevert := abilib.NewOwned(revert)
+	var e *abi.Entry
+	var ok bool
+	perr, mismatch, extra := ownedDecode("ParseError", []*abilib.Owned{ownRevert}, nil,
+		func() (*abi.ComponentValue, error) {
+			var cv *abi.ComponentValue
+			e, cv, ok = a.ParseError(ownRevert.Bytes())
+			if !ok || e == nil {
+				return nil, fmt.Errorf("not found")
+			}
+			if gotSig, _ := e.Signature(); gotSig != en.sig || e.Type != abi.Error {
+				return nil, fmt.Errorf("attributed the data to %s %s", e.Type, gotSig)
+			}
+			return cv, nil
+		},
+		func(cv *abi.ComponentValue) error { return matchValue(en.ty, en.args, cv, "") })
 	switch {
 	case !ok || e == nil:
 		vs = append(vs, evid.V("error-lookup", "%s: ParseError did not find %s (selector %x)", what, en.sig, sel))
-	default:
-		gotSig, _ := e.Signature()
-		if gotSig != en.sig || e.Type != abi.Error {
-			vs = append(vs, evid.V("error-lookup", "%s: ParseError attributed the data to %s %s, the selector %x belongs to %s", what, e.Type, gotSig, sel, en.sig))
-		} else if err := matchValue(en.ty, en.args, cv, ""); err != nil {
-			vs = append(vs, evid.V("error-arguments", "%s: ParseError(%s) returned other arguments: %v", what, en.sig, err))
-		}
+	case perr != nil:
+		vs = append(vs, evid.V("error-lookup", "%s: ParseError %v, the selector %x belongs to %s", what, perr, sel, en.sig))
+	case mismatch != nil:
+		vs = append(vs, evid.V("error-arguments", "%s: ParseError(%s) returned other arguments: %v", what, en.sig, mismatch))
 	}
+	vs = append(vs, extra...)
 	s, sok := a.ErrorString(append([]byte{}, revert...))
 	if !sok || !strings.HasPrefix(s, en.def.Name+"(") || !strings.HasSuffix(s, ")") {
 		vs = append(vs, evid.V("error-string", "%s: ErrorString = %q, %v; want %s(…)", what, clip(s), sok, en.def.Name))
@@ -594,22 +730,36 @@ func zeroValue(t *abiref.Type) abiref.Value {
 }
 
 func judge(c Case) (vs []evid.Violation) {
-	en, err := load(c.Def, c.Args, c.InternalTypes)
-	if err != nil {
-		return []evid.Violation{evid.V("harness", "bad case: %v", err)}
-	}
-	if en.ty.HasZeroSizeArrayElem() {
-		return []evid.Violation{evid.V("harness", "array elements of zero encoded size are outside the quantifier")}
-	}
-	var other *entry
-	if c.Other != nil {
-		if other, err = load(*c.Other, c.OtherArgs, c.InternalTypes); err != nil {
-			return []evid.Violation{evid.V("harness", "bad other entry: %v", err)}
-		}
+	en, other, vs := loadCase(c)
+	if vs != nil {
+		return vs
 	}
 	if err := en.e.Validate(); err != nil {
 		return []evid.Violation{evid.V("valid-definition", "%s %s%s refused: %v", c.Def.Kind, c.Def.Name, c.Def.Decl, err)}
 	}
+	return judgeWith(&c, en, other)
+}
+
+// loadCase builds fresh library objects for the entries of a case.
+func loadCase(c Case) (en, other *entry, vs []evid.Violation) {
+	en, err := load(c.Def, c.Args, c.InternalTypes)
+	if err != nil {
+		return nil, nil, []evid.Violation{evid.V("harness", "bad case: %v", err)}
+	}
+	if en.ty.HasZeroSizeArrayElem() {
+		return nil, nil, []evid.Violation{evid.V("harness", "array elements of zero encoded size are outside the quantifier")}
+	}
+	if c.Other != nil {
+		if other, err = load(*c.Other, c.OtherArgs, c.InternalTypes); err != nil {
+			return nil, nil, []evid.Violation{evid.V("harness", "bad other entry: %v", err)}
+		}
+	}
+	return en, other, nil
+}
+
+// judgeWith judges the clauses of a case on the library objects it is given (fresh ones for the
+// "entry" kind; long-lived, re-validated or shared ones for the sequence kinds).
+func judgeWith(c *Case, en, other *entry) (vs []evid.Violation) {
 	vs = append(vs, judgeIdentity(en)...)
 	if other != nil {
 		vs = append(vs, judgeIdentity(other)...)
@@ -621,7 +771,7 @@ func judge(c Case) (vs []evid.Violation) {
 		vs = append(vs, judgeEvent(en, other)...)
 	case "error":
 		vs = append(vs, judgeCall(en, other)...)
-		vs = append(vs, judgeErrors(&c, en, other)...)
+		vs = append(vs, judgeErrors(c, en, other)...)
 	}
 	return vs
 }
@@ -970,6 +1120,10 @@ func TestCheck(t *testing.T) {
 	rec.Assume("not asserted: indexed parameters of type function/fixed/ufixed (decoded from the topic by the library instead of being surfaced raw); a non-anonymous event with zero indexed parameters given zero topics; fixed-point argument values other than small multiples of 1.0 (C02 judges the fixed-point arithmetic); four-byte selector collisions between distinct signatures (none occurs in the generated cases, checked)")
 	k := evid.NewKind(rec, "entry", judge)
 	cpool := evid.NewPool(rec, "concurrent", judge, 64)
+	kReval := evid.NewKind(rec, "revalidate", judgeReval)
+	kShared := evid.NewKind(rec, "shared", judgeShared).DeclareEach()
+	rec.Assume("caller-owned memory: call data, revert data, topics, log data and JSON text are handed over inside larger caller-owned buffers; none may be written to; values decoded from call / revert / log data and the returned selector and hash slices must not refer to them or to each other. Not asserted: the raw topic surfaced for an indexed reference type may be a view of the caller's topic slice")
+	rec.Assume("a definition edited in place is validated again before it is used (the documented contract)")
 	rec.Corpus(t)
 	t.Run("exhaustive-signatures", func(t *testing.T) { sweepSignatures(t, rec, k) })
 	rec.Rapid(t, "entries", rec.N(8000, 20000), func(rt *rapid.T) {
@@ -980,11 +1134,21 @@ func TestCheck(t *testing.T) {
 		k.Check(rt, c, nt, append(cl, extra...)...)
 	})
 	cpool.Run(t, 8, 3, 16)
+	rec.Rapid(t, "revalidate", rec.N(2500, 12000), func(rt *rapid.T) {
+		c, nested, cl := genReval(rt)
+		kReval.Check(rt, c, nested, cl...)
+	})
+	rec.Rapid(t, "shared", rec.N(40, 200), func(rt *rapid.T) {
+		c, nt, cl := genShared(rt)
+		kShared.Check(rt, c, nt, cl...)
+	})
 }
 
 func TestReplay(t *testing.T) {
 	rec := evid.Start("C12", rule)
 	evid.NewKind(rec, "entry", judge)
 	evid.NewPool(rec, "concurrent", judge, 0)
+	evid.NewKind(rec, "revalidate", judgeReval)
+	evid.NewKind(rec, "shared", judgeShared)
 	rec.Replay(t)
 }
